@@ -150,10 +150,10 @@ class CrashPoints:
     ]
 
     def n_tasks(self, tier, seed):
-        return 2 * (2 if tier == "quick" else 4)  # (config, scenario)
+        return 2 * (3 if tier == "quick" else 6)  # (config, scenario); the last third targets StateManager.save_state
 
     def _state(self, cfg, seed, od):
-        case = dict(cfg, seed=seed)
+        case = {k: v for k, v in dict(cfg, seed=seed).items() if k != "statemanager"}
         np.random.seed(seed)
         s, t = build(case, od)
         s._core._initialize_fresh()
@@ -171,15 +171,17 @@ class CrashPoints:
             old = None
             if scenario == "existing":
                 with quiet():
-                    lib_call(s.save_state, path, what="Sampler.save_state")
+                    lib_call(s.state.save_state if cfg.get("statemanager") else s.save_state, path, what="save_state")
                 old = history_snapshot(s.state)
                 with quiet():
                     s.sample()
             new = history_snapshot(s.state)
 
+            use_sm = bool(cfg.get("statemanager"))
+
             def do_save():
                 with quiet():
-                    s.save_state(path)
+                    (s.state.save_state if use_sm else s.save_state)(path)
 
             code, events = run_in_child(do_save, None if crash is None else (int(crash[0]), crash[1]))
             if crash is None:
@@ -210,7 +212,9 @@ class CrashPoints:
 
     def run_task(self, pid, tier, seed, shard):
         rec = Recorder(pid, tier, seed)
-        cfg = self.CONFIGS[(shard // 2 + seed) % len(self.CONFIGS)]
+        cfg = dict(self.CONFIGS[(shard // 2 + seed) % len(self.CONFIGS)])
+        if shard // 2 >= self.n_tasks(tier, seed) // 2 * 2 // 3:
+            cfg["statemanager"] = True  # the state manager's own save_state (documented as atomic)
         scenario = ["absent", "existing"][shard % 2]
         base = {"cfg": cfg, "seed": (seed * 7919 + shard) % (2**31 - 1), "scenario": scenario}
         try:
